@@ -109,7 +109,17 @@ func runLive(sp infoSpec, npeers int, steps []liveStep) (fail string, labels map
 				return r
 			}
 		}
-		return nil
+		// everybody has been dropped (a peer that contributed to metadata that
+		// failed its hash is not kept): a fresh honest peer turns up
+		r, err := x.Connect(sim.Caps{Extended: true}, len(rs)+1, false)
+		if err != nil {
+			return nil
+		}
+		r.SendExt(map[string]uint8{"ut_metadata": 7}, nil, &size, "")
+		rs = append(rs, r)
+		sim.Settle()
+		labels["fresh-peer-after-everybody-was-dropped"] = true
+		return r
 	}
 	for _, s := range steps {
 		if t.InfoComplete() {
@@ -174,6 +184,8 @@ func runLive(sp infoSpec, npeers int, steps []liveStep) (fail string, labels map
 	// peers at once where there are two, while the loop is busy; then the loop
 	// catches up
 	if !early {
+		time.Sleep(6 * time.Second)
+		sim.Settle()
 		a, b := live(0), live(1)
 		if a == nil {
 			return "", labels, hist
@@ -212,6 +224,10 @@ func runLive(sp infoSpec, npeers int, steps []liveStep) (fail string, labels map
 			// makes the first complete set fail its hash: that is the corruption
 			// being flushed, not a defect)
 			hist = append(hist, "authentic blocks one at a time")
+			// (after a failed hash the buffer is gone until the torrent's next
+			// five-second tick sizes it again)
+			time.Sleep(6 * time.Second)
+			sim.Settle()
 			for i := 0; i < count && !t.InfoComplete(); i++ {
 				if r := live(i); r != nil {
 					r.Send(metaMsg(i, size, honestBlock(info, i)))
